@@ -1112,6 +1112,35 @@ func (sc *SCtx) call(x *ECall) (Val, error) {
 			h := sc.g.heapGet(sc.state(), "E:uint8", ArraySort(SInt, ArraySort(SInt, SInt)))
 			t := App("vp_bytesstr", SStr, Select(h, v.F[0].T), v.F[1].T, v.F[2].T)
 			return scalar(t, types.Typ[types.String]), nil
+		case "bytes":
+			// bytes(s): the byte slice Go's []byte(s) gives. It lives at a ghost
+			// reference (negative: never allocated, never nil, never written) that
+			// is a function of the string; its contents are the bytes of s in every
+			// heap version it is read from.
+			if len(x.Args) != 1 {
+				return Val{}, fmt.Errorf("bytes takes one argument")
+			}
+			v, err := sc.eval(x.Args[0])
+			if err != nil {
+				return Val{}, err
+			}
+			if v.K == VSlice && isByteSlice(v.Ty) {
+				return v, nil
+			}
+			if v.K != VScalar || v.T == nil || v.T.S != SStr {
+				return Val{}, fmt.Errorf("bytes: not a string")
+			}
+			g := sc.g
+			ref := App("vp_bytesref", SInt, v.T)
+			n := App("vp_strlen", SInt, v.T)
+			g.strlenNonNeg(v.T)
+			cont := App("vp_strbytes", ArraySort(SInt, SInt), v.T)
+			h := g.heapGet(sc.state(), "E:uint8", ArraySort(SInt, ArraySort(SInt, SInt)))
+			g.assume(Lt(ref, IntLit(0)))
+			g.assume(Eq(Select(h, ref), cont))
+			g.assume(Eq(App("vp_bytesstr", SStr, cont, IntLit(0), n), v.T))
+			bt := types.NewSlice(types.Typ[types.Uint8])
+			return Val{K: VSlice, Ty: bt, F: []Val{scalar(ref, nil), scalar(IntLit(0), nil), scalar(n, nil), scalar(n, nil)}}, nil
 		case "new":
 			// new(x) in a loop invariant: allocated since the loop was entered
 			if len(x.Args) != 1 {
